@@ -18,7 +18,8 @@ import (
 func init() {
 	register(&RuleSet{
 		ID: "C06",
-		Explanation: "Closure S = repo functions reachable from endorse.GoldenMeasurement and endorse.SignDoc. " +
+		Explanation: "R13 GoldenMeasurement stores Digest, ClSpec and Commit on every path to a successful return (no condition on the value decides whether it is signed). " +
+			"Closure S = repo functions reachable from endorse.GoldenMeasurement and endorse.SignDoc. " +
 			"R1 error discipline: every call in S to a repo function (or proto/prototext (Un)Marshal) that returns an error has that error consumed (extracted and used); accepted infallible idioms are recognised structurally (writes to a *bytes.Buffer; fixed-width codec given an array slice or constant-width slice) and one named suppression. " +
 			"R2 use after check: a value returned together with an error is used only where that error is known nil (dominating branch), or returned together with it. " +
 			"R3 one image: the SHA-384 operand and the image argument of every technology measurement have the same access path (Context.Image), which is never stored to in S. " +
@@ -930,6 +931,55 @@ func runC06(c *Ctx) {
 			}
 		}
 		c.S.Floor("R10", "flag-guarded loads of endorse.Context fields in package cmd", 1, nG)
+	}
+
+	// ---- R13: what the request names is signed whatever its shape ----
+	// The fields of the golden measurement that copy the request (Digest, ClSpec, Commit) are stored on every path
+	// to a successful return of GoldenMeasurement: no condition on the value itself (its length, its being non-zero)
+	// decides whether it is signed. A value the signer drops silently ("commit is not 20 bytes") yields a document
+	// that is signed, committed and then refused by the verifier for missing provenance.
+	{
+		nV := 0
+		for _, fname := range []string{"Digest", "ClSpec", "Commit"} {
+			var stores []*ssa.Store
+			for _, rf := range unexportedRegion(gm) {
+				for _, b := range rf.Blocks {
+					for _, in := range b.Instrs {
+						if st, ok := in.(*ssa.Store); ok {
+							if fa, ok := st.Addr.(*ssa.FieldAddr); ok && flow.FieldName(fa) == fname && namedIs(fa.X.Type(), epbPkg, "VMGoldenMeasurement") && rf == gm {
+								stores = append(stores, st)
+							}
+						}
+					}
+				}
+			}
+			if len(stores) == 0 {
+				continue // written in a helper or through a literal: R4 covers existence and source
+			}
+			nV++
+			ei := errIndex(gm.Signature)
+			okAll := true
+			for _, b := range gm.Blocks {
+				ret, isRet := b.Instrs[len(b.Instrs)-1].(*ssa.Return)
+				if !isRet || ei < 0 {
+					continue
+				}
+				if k, isK := ret.Results[ei].(*ssa.Const); !isK || !k.IsNil() {
+					continue
+				}
+				dom := false
+				for _, st := range stores {
+					if st.Block().Dominates(b) {
+						dom = true
+					}
+				}
+				if !dom {
+					okAll = false
+				}
+			}
+			c.S.Check(okAll, "R13", "endorse.GoldenMeasurement:"+fname+" stored unconditionally", c.pos(stores[0].Pos()), fname+" is stored on every path to a successful return", "VMGoldenMeasurement."+fname+" is stored only on some paths to a successful return: for some requests the value the caller named is silently left out of the signed document")
+		}
+		c.S.Floor("R13", "verbatim request fields stored by GoldenMeasurement itself", 2, nV)
 	}
 
 	// ---- R6 ----
